@@ -53,7 +53,7 @@ L1Run(q, r) ==
                 /\ (r.end = "crashed" => r.crash.kind # "none")
                 /\ (r.end = "declined" => q.entry = "bundled")
         nop == \A k \in 2..Len(r.tgt) : /\ r.tgt[k] # "odd"
-                                         /\ (TDecl(q) => r.tgt[k] \in {"G", Absent})
+                                         /\ (TDecl(q) => r.tgt[k] \in {"G", "C", Absent})
     IN (IF ret THEN {} ELSE {"ReturnedOK"}) \cup (IF ends THEN {} ELSE {"ExplicitEnd"}) \cup (IF nop THEN {} ELSE {"NoPartialFinal"})
 
 L2Run(q, pre, r) ==
